@@ -96,7 +96,13 @@ def generate(streams, tier):
         plan["generated"]["a"] = (plan["generated"]["a"] + "abc")[:3]
     elif rng.random() < 0.05:
         # the RECEIVER is a generated deserializer; the sender is a hand-driven EoWriter of another protocol version
-        if rng.random() < 0.5:
+        if rng.random() < 0.3:
+            plan["generated_rx"] = {"template": "Opts", "a": gen_int_in_range(vr, "char"), "b": gen_int_in_range(vr, "char"),
+                                    "c": gen_int_in_range(vr, "char"),
+                                    "o1": rng.choice([None, gen_int_in_range(vr, "short")]),
+                                    "o2": rng.choice([None, pool.get(vr, min_len=1)]),
+                                    "o3": rng.choice([None, gen_int_in_range(vr, "char")])}
+        elif rng.random() < 0.5:
             plan["generated_rx"] = {"template": "List", "names": [rng.choice(["", "", pool.get(vr), gen_string(vr, max_len=4)])
                                                                   for _ in range(rng.randrange(0, 6))], "after": pool.get(vr)}
         else:
@@ -121,7 +127,7 @@ def c06_tree():
     t = skeleton_tree()
     t["net/protocol.xml"] = _HDR + """<protocol>
     <enum name="PacketFamily" type="byte"><value name="Talk">1</value></enum>
-    <enum name="PacketAction" type="byte"><value name="Tell">1</value><value name="Report">2</value><value name="List">3</value><value name="Pairs">4</value></enum>
+    <enum name="PacketAction" type="byte"><value name="Tell">1</value><value name="Report">2</value><value name="List">3</value><value name="Pairs">4</value><value name="Opts">5</value></enum>
     <struct name="Pair">
         <chunked>
             <field name="id" type="char"/>
@@ -168,6 +174,18 @@ def c06_tree():
             <length name="count" type="char"/>
             <array name="names" type="string" length="count" delimited="true"/>
             <field name="after" type="string"/>
+        </chunked>
+    </packet>
+    <packet family="Talk" action="Opts">
+        <chunked>
+            <field name="a" type="char"/>
+            <field name="o1" type="short" optional="true"/>
+            <break/>
+            <field name="b" type="char"/>
+            <field name="o2" type="string" optional="true"/>
+            <break/>
+            <field name="c" type="char"/>
+            <field name="o3" type="char" optional="true"/>
         </chunked>
     </packet>
     <packet family="Talk" action="Pairs">
@@ -250,7 +268,25 @@ def run_generated_rx(plan, env, res, tr, fail):
     srv = importlib.import_module("eolib.protocol._generated.net.server")
     w = EoWriter()
     res.count("probe.generated_deserializer_session")
-    if g["template"] == "List":
+    if g["template"] == "Opts":
+        # optional fields are present or absent chunk by chunk, independently of the other chunks
+        w.string_sanitization_mode = True
+        w.add_char(g["a"])
+        if g["o1"] is not None:
+            w.add_short(g["o1"])
+        w.add_byte(0xFF)
+        w.add_char(g["b"])
+        if g["o2"] is not None:
+            w.add_string(g["o2"])
+        w.add_byte(0xFF)
+        w.add_char(g["c"])
+        if g["o3"] is not None:
+            w.add_char(g["o3"])
+        data = bytes(w.to_bytearray())
+        obj = srv.TalkOptsServerPacket.deserialize(EoReader(data))
+        got = (obj.a, obj.o1, obj.b, obj.o2, obj.c, obj.o3)
+        want = (g["a"], g["o1"], g["b"], image(g["o2"]) if g["o2"] is not None else None, g["c"], g["o3"])
+    elif g["template"] == "List":
         w.string_sanitization_mode = True
         w.add_char(len(g["names"]))
         for n in g["names"]:
